@@ -148,11 +148,28 @@ where
         #[cfg(feature = "verif-hooks")]
         crate::verif_hooks::record_order("collect_item_keys", self.lalrpop_results.keys());
 
-        self.lalrpop_results
-            .values()
-            .flat_map(|fr| &fr.ast)
-            .map(|f| (f.get_key(), f.item.get_kind()))
-            .collect()
+        // Several files may define the same item (same package and name) with different kinds:
+        // the kind which is kept must not depend on the iteration order of the files
+        fn rank(kind: &ast::ResolvedItemKind) -> u8 {
+            match kind {
+                ast::ResolvedItemKind::Interface => 0,
+                ast::ResolvedItemKind::Parcelable => 1,
+                _ => 2,
+            }
+        }
+
+        let mut keys = HashMap::new();
+        for f in self.lalrpop_results.values().flat_map(|fr| &fr.ast) {
+            let kind = f.item.get_kind();
+            keys.entry(f.get_key())
+                .and_modify(|k| {
+                    if rank(&kind) < rank(k) {
+                        *k = kind.clone()
+                    }
+                })
+                .or_insert_with(|| kind.clone());
+        }
+        keys
     }
 }
 
